@@ -29,11 +29,15 @@ ATOMS = [
     ("xs:dayTimeDuration('PT1S')", ['DayTimeDuration', 'PT1S']),
     ("0.1", ['Decimal', '0.1']), ("0.1e0", ['float', '0.1']), ("1.1", ['Decimal', '1.1']), ("1.1e0", ['float', '1.1']),
     ("xs:float('0.1')", ['Float', '0.1']),
+    ("xs:hexBinary('61')", ['HexBinary', '61']), ("xs:base64Binary('YQ==')", ['Base64Binary', 'YQ==']),
+    ("xs:dateTime('2000-01-01T00:00:00Z')", ['DateTime10', '2000-01-01T00:00:00Z']), ("xs:date('2000-01-01')", ['Date10', '2000-01-01']),
+    ("xs:gYear('2000')", ['GregorianYear10', '2000']), ("xs:time('00:00:00')", ['Time', '00:00:00']),
+    ("xs:dateTime('2000-01-01T00:00:00')", ['DateTime10', '2000-01-01T00:00:00']),
 ]
 KEY_GROUPS = {
     'int': [0, 1, 2, 3, 4], 'decimal': [5, 6, 7], 'double': [8, 9, 11, 12, 13], 'nan': [10, 14], 'float': [15],
     'string': [16, 17, 18, 19], 'uri': [20], 'untyped': [21, 22], 'bool': [23, 24], 'other': [25, 26, 27],
-    'inexact': [28, 29, 30, 31, 32],
+    'inexact': [28, 29, 30, 31, 32], 'binary': [33, 34], 'datetime': [35, 36, 37, 38, 39, 26],
 }
 
 MAP_OPS = ['map:put', 'map:put', 'map:remove', 'map:merge', 'map:merge', 'map:entry', 'map-ctor', 'map:get',
@@ -246,7 +250,7 @@ def gen_case(rng, tier):
     atoms = sorted(set(i for g in enabled for i in KEY_GROUPS[g]))
     if rng.random() < 0.15:
         # few keys of one collision family: the same key (by the same-key relation) meets again and again
-        atoms = rng.choice([[10, 14, 16], [10, 14], [1, 5, 8, 15], [1, 5, 8, 15, 23], [16, 20, 21], [0, 7, 12, 13, 24], [28, 29, 32], [30, 31, 28]])
+        atoms = rng.choice([[10, 14, 16], [10, 14], [1, 5, 8, 15], [1, 5, 8, 15, 23], [16, 20, 21], [0, 7, 12, 13, 24], [28, 29, 32], [30, 31, 28], [33, 34, 16], [35, 36, 37, 38, 39, 26]])
         enabled = ['few-keys']
     nops = rng.randint(3, 40 if thorough else 18)
     fail_rate = rng.choice([0.0, 0.1, 0.25])
